@@ -123,6 +123,15 @@ Theorem callgrind_name_defined_before_use : forall (f : string -> string) names 
 Proof. intros f names t name Hf. exact (cg_name_resolve f Hf names t name). Qed.
 Print Assumptions callgrind_name_defined_before_use.
 
+(* ids are dense: a definition gets id = (number of names defined so far in that table) + 1, for a
+   name that was not in the table *)
+Theorem callgrind_ids_dense : forall tbl0 name k n,
+  fst (cg_name tbl0 name) = NDef k n ->
+  k = Z.of_nat (List.length tbl0) + 1 /\ n = name /\ snd (cg_name tbl0 name) = (tbl0 ++ [name])%list /\
+  index_of name tbl0 1 = None.
+Proof. exact cg_name_def_dense. Qed.
+Print Assumptions callgrind_ids_dense.
+
 (* the TEXT: for ALL graphs whose names can be written on a line (no newline, not blank: outside
    F20) and outside F11, parsing the text the model writes and reading it gives back the graph
    (names up to the leading blanks a reader skips) *)
